@@ -88,6 +88,16 @@ def client_product(run):
                 sc = client_scenario(store_kind=kind, disc=disc or "full", ops=ops, config={"counter": len(scs) % 2 == 0})
                 sc["c11"] = {"plain": True, "phase": 1}
                 scs.append(sc); meta.append(("client", kind, disc, sname, cname, 1))
+    # the storage rule does not depend on user verification: the same product with verification discouraged and NOT performed
+    # (configured or absent on the authenticator), and with verification required, for the credProps-requesting registration
+    for kind, disc in store_configs(run.tier):
+        for sname, sel in SELECTIONS[1:]:
+            for uv, verif, ans in (("discouraged", True, False), ("discouraged", None, False), ("discouraged", True, True), ("required", True, True)):
+                ops = [reg_op(run.rng, selection=dict(sel, uv=uv), ext=wext(cred_props=True), user_id=USER_ID), auth_op(run.rng, allow=None, uv=uv)]
+                sc = client_scenario(store_kind=kind, disc=disc or "full", ops=ops, config={"counter": len(scs) % 2 == 0},
+                                     user={"verif_enabled": verif, "script": [{"presence": True, "verification": ans}] * 2})
+                sc["c11"] = {"plain": True, "phase": 1}
+                scs.append(sc); meta.append(("client", kind, disc, sname, "uv=%s/%s/%s" % (uv, verif, ans), 1))
     return scs, meta
 
 
@@ -100,6 +110,14 @@ def ctap_product(run):
             sc = scenario(store_kind=kind, disc=disc or "full", ops=ops, config={"counter": True})
             sc["c11"] = {"plain": True, "phase": 1}
             scs.append(sc); meta.append(("ctap", kind, disc, rk, 1))
+            # without user verification (configured but not asked for / absent): the storage rule is the same
+            for verif in (True, None):
+                ops = [{"op": "get_info"}, {"op": "make_credential", "req": mc_req(run.rng, rk=rk, uv=False, user_id=USER_ID)},
+                       {"op": "get_assertion", "req": ga_req(run.rng, allow=None, uv=False)}]
+                sc = scenario(store_kind=kind, disc=disc or "full", ops=ops, config={"counter": True},
+                              user={"verif_enabled": verif, "script": [{"presence": True, "verification": False}] * 2})
+                sc["c11"] = {"plain": True, "phase": 1}
+                scs.append(sc); meta.append(("ctap", kind, disc, rk, "uv=False/%s" % verif))
     return scs, meta
 
 
